@@ -9,7 +9,8 @@ import numpy as np
 from ..core import fmt, fmt_list, parse_rats, frac, err_kind, close, exact, floats
 
 ID = "C14"
-MODULES = ["TWV.Properties.C14"]
+MODULES = ["TWV.Properties.C14", "TWV.Tie.Vector"]
+TRANSLATORS = ["t3_vector"]
 RULE = ("random series of 2..40 points; trend with callables from a polynomial family (degree <= 2, dyadic coefficients; the "
         "callable records its arguments, which are compared exactly with x_i or x_i/range) through process.trend / "
         "linear_trend / Weaver.trend, normalised or not, a second trend on top (additivity), the zero trend; "
